@@ -68,6 +68,10 @@ def check(ctx) -> Result:
                     f"{kind} mapping per-mode function(s) are {sorted((k[0], k[2]) for k in seen)}", construct=str(sorted((k[0], str(k[2])) for k in seen)))
             # result goes through recombination
             rets = [r for r in walk_no_nested(f.node) if isinstance(r, ast.Return)]
+            rets.sort(key=lambda r: r.lineno)
+            for r in rets[:-1]:
+                res.add(src(r.value) == "self._recombine_mapped_result(mapped_result)", "M4-every-return-is-mapped", f"{ci.name}.apply_{kind}_mapping:line{r.lineno - f.node.lineno}", f.site(r), f.qualname, "returns the recombined mapped weights",
+                        f"`{src(r)[:70]}` returns without applying the per-mode map (and the `invert` option) to every output", construct=src(r)[:100])
             res.frozen(bool(rets) and src(rets[-1].value) == "self._recombine_mapped_result(mapped_result)", "M4-recombine", f"{ci.name}.apply_{kind}_mapping", f.site(), f.qualname, "mapped weights are recombined into a new result", "mapped result is not returned through the recombination", construct=src(rets[-1]) if rets else "")
     res.floor("G stores in mappings", n, 6)
     # amplitude refusal dominates all work
@@ -131,6 +135,9 @@ def check(ctx) -> Result:
     pi = PR.methods["__init__"]
     t = src(pi.node)
     res.frozen("super().__init__(results)" in t and "self.__outputs = list(results.keys())" in t, "M4-sampling-result-unchanged", "SamplingResult.__init__", pi.site(), pi.qualname, "counts are handed to dict unchanged; outputs are its keys", "SamplingResult no longer stores exactly the counts it was built from", construct="__init__")
+    reb = [a for a in walk_no_nested(pi.node) if isinstance(a, (ast.Assign, ast.AugAssign)) and any(isinstance(x, ast.Name) and x.id == "results" and isinstance(x.ctx, ast.Store) for x in ast.walk(a))]
+    res.add(not reb, "M4-counts-stored-as-given", "SamplingResult.__init__", pi.site(reb[0]) if reb else pi.site(), pi.qualname, "the counts argument is not filtered or re-bound before it is stored",
+            f"the counts handed to the constructor are altered before being stored (`{src(reb[0])[:70] if reb else ''}`): the result no longer returns exactly the counts it was built from", construct=src(reb[0])[:100] if reb else "")
     pr = PR.methods["_recombine_mapped_result"]
     r = [x for x in walk_no_nested(pr.node) if isinstance(x, ast.Return)]
     res.frozen(len(r) == 1 and src(r[0].value) == "SamplingResult(mapped_result, self.input)", "M4-recombine", "SamplingResult._recombine_mapped_result", pr.site(), pr.qualname, "new result from the mapped counts and the same input", "recombination changed", construct=src(r[0]) if r else "")
